@@ -324,13 +324,18 @@ _RAG = "Panacea.Refine.AolGenesis"
 R_AOLG = [f"{_RAG}.owner_step", f"{_RAG}.topic_step", f"{_RAG}.writer_step", f"{_RAG}.record_step", f"{_RAG}.initGenesis_run",
           f"{_RAG}.fold_table", f"{_RAG}.fold_table_panic", f"{_RAG}.initGenesis_refines", f"{_RAG}.initGenesis_panics",
           f"{_RAG}.initGenesis_of_export"]
+_RAE = "Panacea.Refine.AolExport"
+R_AOLE = [f"{_RAE}.owner_fromBytes", f"{_RAE}.topic_fromBytes", f"{_RAE}.writer_fromBytes", f"{_RAE}.record_fromBytes",
+          f"{_RAE}.mustDecode_ok", f"{_RAE}.getAllOwners_run", f"{_RAE}.getAllTopics_run", f"{_RAE}.getAllWriters_run",
+          f"{_RAE}.getAllRecords_run", f"{_RAE}.export_loop", f"{_RAE}.exportGenesis_run", f"{_RAE}.strs_nodup",
+          f"{_RAE}.exportGenesis_ent", f"{_RAE}.exportTable_abs", f"{_RAE}.genesis_roundtrip"]
 _RDG = "Panacea.Refine.DidGenesis"
 R_DIDG = [f"{_RK}.initGenesis_run", f"{_RK}.initGenesis_abs", f"{_RK}.initGenesis_empty", f"{_RK}.listDIDs_run",
           f"{_RK}.exportGenesis_run", f"{_RK}.genesis_roundtrip", f"{_RK}.initGenesis_order_independent"]
 REFINE = {
-    "C18": ([_RC, _RCS, _RAG], R_COMPKEY + R_CKS + R_AOLG[:5]),
+    "C18": ([_RC, _RCS, _RAG, _RAE], R_COMPKEY + R_CKS + R_AOLG[:5] + R_AOLE[:5] + R_AOLE[11:12]),
     "C01": ([_RA, _RAQ], R_COMPKEY + R_AOL + R_AOLQ[2:3]),
-    "C13": ([_RA, _RAQ], R_COMPKEY + R_AOL + R_AOLQ),
+    "C13": ([_RA, _RAQ, _RAE], R_COMPKEY + R_AOL + R_AOLQ + R_AOLE[5:9]),
     "C02": ([_RA, _RT], R_AOL + R_SIGNERS),
     "C15": ([_RT], R_SIGNERS),
     "C16": ([_RT, _RD, _RP, _RA], R_VB + R_DIDV + R_PNFTV + R_AOL[:4]),
@@ -340,7 +345,7 @@ REFINE = {
     "C11": ([_RD, _RK], R_DIDV[-4:] + R_DIDK[3:5]),
     "C03": ([_RD, _RK, _RDG], R_DIDV[3:5] + R_DIDV[6:7] + R_DIDK + R_DIDG[-2:-1]),
     "C07": ([_RB], R_BURN),
-    "C08": ([_RP, _RPQ, _RPG, _RDG, _RCS, _RAG], R_PNFTG + [f"{_RP}.getAllDenoms_run"] + R_DIDG + R_CKS[-4:] + R_AOLG),
+    "C08": ([_RP, _RPQ, _RPG, _RDG, _RCS, _RAG, _RAE], R_PNFTG + [f"{_RP}.getAllDenoms_run"] + R_DIDG + R_CKS[-4:] + R_AOLG + R_AOLE),
     "C09": ([_RDG, _RAG], R_DIDG[:3] + R_DIDG[-1:] + R_AOLG[4:5] + R_AOLG[7:9]),
     "C04": ([_RK, _RDG], R_DIDK[2:] + R_DIDG[-2:-1]),
     "C05": ([_RK, _RDG], R_DIDK[3:] + R_DIDG[-2:-1]),
